@@ -8,6 +8,7 @@ executed) NetQASM subroutine.
 
 from __future__ import annotations
 
+import ctypes
 from typing import Dict, List, Optional, Tuple, Union
 
 from netqasm.lang import encoding
@@ -118,6 +119,12 @@ class Subroutine:
     @property
     def cstructs(self):
         assert self.app_id is not None
+        if not 0 <= self.app_id < 2 ** (8 * ctypes.sizeof(encoding.APP_ID)):
+            raise ValueError(f"app ID {self.app_id} cannot be encoded")
+        if not all(0 <= v < 2**8 for v in self.netqasm_version):
+            raise ValueError(
+                f"NetQASM version {self.netqasm_version} cannot be encoded"
+            )
 
         metadata = encoding.Metadata(
             netqasm_version=self.netqasm_version,
